@@ -7,7 +7,7 @@ BS = B.replace("arbitrary bijection", "structural-first or logical-first column 
 
 
 def dels(fn, funcs, props, small, nr=2, tier=None, **kw):
-    return Group("del/%s%s%s" % (fn, "_s" if small else "", "" if nr == 2 else "_%dr" % nr), "lib_del.c", tus=LIB, model=MODEL, defines=["FN_" + fn, "NR=%d" % nr] + (["LAYOUT_SMALL"] if small else []), dfcc=False, unwind=8 * nr, kind="bounded",
+    return Group("del/%s%s%s" % (fn, "_s" if small else "", "" if nr == 2 else "_%dr" % nr), "lib_del.c", tus=LIB, model=MODEL, mem_gb=(7 if small else 10), defines=["FN_" + fn, "NR=%d" % nr] + (["LAYOUT_SMALL"] if small else []), dfcc=False, unwind=8 * nr, kind="bounded",
                  bound=(BS if small else B).replace("2 rows (4 internal", "%d rows (%d internal" % (nr, nr + 2)), timeout=3000, flags=["--no-malloc-may-fail"], tier=tier or ("quick" if small else "thorough"), functions=funcs, props=props, assumed=[ASM], **kw)
 
 
